@@ -59,6 +59,10 @@ def plan(tier, seed):
     for a, b in E.chunks(E.n_graphs(4, 3), 250):
         shards.append(("emb0", 4, 3, a, b))
     shards.append(("emb0", 3, 3, 0, 27))
+    # deep forests: two labeled samples and a chain of unlabeled ones with growing gaps (each is reached
+    # through the previous one), 3..30 of them, in ascending, descending and interleaved row order
+    shards.append(("chain", 3, 16))
+    shards.append(("chain", 16, 31))
     return shards
 
 
@@ -88,6 +92,19 @@ def programs(shard, seed):
             for lab in E.labelings(nl):
                 yield {"model": "SemiSupervisedOPF", "mode": "pre", "W": W,
                        "labels": list(E.rename_classes(lab, seed)), "n_unlabeled": nu}
+    elif kind == "chain":
+        _, a, b = shard
+        sc = [1.0, 0.5, 2.0, 3.0][seed % 4] if seed else 1.0
+        for nu in range(a, b):
+            xs, x = [], 0.0
+            for i in range(nu):
+                x += 1.0 + 0.1 * i
+                xs.append(x * sc)
+            orders = [xs, xs[::-1], xs[::2] + xs[1::2]]
+            for o in orders:
+                for lab in ([1, 0], [0, 1], [3, 7]):
+                    yield {"model": "SemiSupervisedOPF", "mode": "features", "metric": "euclidean",
+                           "X": [[-1.0 * sc], [0.0]] + [[v] for v in o], "labels": lab, "n_unlabeled": nu}
     elif kind == "emb0":
         # empty unlabeled set AND a non-identity index array into a larger pre-computed matrix
         _, nl, m, a, b = shard
